@@ -674,6 +674,11 @@ def failclosed_oracle(n_quick=120, n_thorough=2500):
         forms += [('unrecognised text after an operand', ['other_text', t]) for t in (
             'ldi a, 5!', 'ldi a, 5 @', 'ldi a, 7 ~', 'jmp $0100?', 'ldi a, (1+2)*2`', 'lda 3 \\', 'ldi a, 5 !', 'jmp 5#')]
         forms += [('unknown instruction', ['other_text', t]) for t in ('jmp($0100)', 'lda$10', "lda'a'", 'jmp-5')]
+        # a vertical tab is white space, not a way to make a line disappear
+        forms += [('unknown instruction', ['other_text', t]) for t in ('bogus\x0bstuff', 'jmp\x0bnowhere_at_all')]
+        # a language requirement that cannot be read cannot be known to be met
+        forms += [('malformed requirement', ['other_text', t]) for t in ('#require "other-lang >= 9.9', '#require "my lang"', '#require "verif ~= 1.0"',
+                                                                         "#require 'verif'")]
         # two strings in one data directive are not one string that contains quotes and a comma
         forms += [('malformed data operands', ['other_text', t]) for t in ('.byte "a", "b"', '.cstr "a" "b"', ".byte 'ab', 'c'")]
         # a value beyond a configured bound of exactly 0 (a bound of 0 is a bound) that still fits the field
